@@ -64,6 +64,16 @@ type Beh struct {
 	Len   *int   `json:"len"`
 	Dt    int    `json:"dt"`
 	ESlot int    `json:"eslot"`
+	// Re makes the function call back into the container while it is running: it invokes function Fn on
+	// scope Scope between its enter and its exit event (programs with such behaviours are judged by the
+	// trace predicates only; the model has no re-entrant user functions).
+	Re *ReCall `json:"re"`
+}
+
+// ReCall describes a nested Invoke made from inside a user function.
+type ReCall struct {
+	Scope int `json:"scope"`
+	Fn    int `json:"fn"`
 }
 
 func (b Beh) length() int {
